@@ -26,10 +26,12 @@ import (
 	ghealth "google.golang.org/grpc/health"
 	healthpb "google.golang.org/grpc/health/grpc_health_v1"
 	"google.golang.org/grpc/reflection"
+	rpb "google.golang.org/grpc/reflection/grpc_reflection_v1alpha"
 	"google.golang.org/grpc/test/bufconn"
 	"google.golang.org/protobuf/encoding/protojson"
 	"google.golang.org/protobuf/proto"
 	"google.golang.org/protobuf/reflect/protoreflect"
+	"google.golang.org/protobuf/reflect/protoregistry"
 	"google.golang.org/protobuf/types/dynamicpb"
 	"larking.io/health"
 	"larking.io/larking"
@@ -51,6 +53,8 @@ type SelEv struct {
 	Bound  []bool   `json:"bound"`
 	Out    string   `json:"out"`
 	Err    string   `json:"err"`
+	Orig   []ASel   `json:"orig"` // the case as given (for replay, with the case id)
+	V      int      `json:"v"`    // how the method was registered (runSelCaseV)
 }
 
 var selTargets = [][]string{
@@ -69,9 +73,16 @@ func selText(s ASel) string {
 	return t
 }
 
-func runSelCase(c SelCase, target []string) (ev SelEv) {
+func runSelCase(c SelCase, target []string) (ev SelEv) { return runSelCaseV(c, target, 0) }
+
+// runSelCaseV: v picks how the method gets there - annotated on the template of one of the configured rules (with
+// another variable, so that whose binding answers can be told), options in the other order, or through a backend
+// connection whose descriptors are known from its reflection service only.
+func runSelCaseV(c SelCase, target []string, v int) (ev SelEv) {
+	annot, mode := v%2 == 1, (v/2)%3
 	// every other selector is configured a second time with another pattern: a selector may carry several rules
 	// and each of them is bound on its own
+	orig := c.Sels
 	sels := append([]ASel{}, c.Sels...)
 	for k, s := range c.Sels {
 		if (c.ID+k)%2 == 0 {
@@ -79,7 +90,7 @@ func runSelCase(c SelCase, target []string) (ev SelEv) {
 		}
 	}
 	c.Sels = sels
-	ev = SelEv{Ev: "Sel", Case: c.ID, Target: target, Sels: c.Sels, Bound: make([]bool, len(c.Sels)), Out: "ok"}
+	ev = SelEv{Ev: "Sel", Case: c.ID, Target: target, Sels: c.Sels, Bound: make([]bool, len(c.Sels)), Out: "ok", Orig: orig, V: v}
 	for i := range ev.Sels {
 		if ev.Sels[i].Path == nil {
 			ev.Sels[i].Path = []string{}
@@ -98,12 +109,23 @@ func runSelCase(c SelCase, target []string) (ev SelEv) {
 	}
 	n := len(target)
 	svc := ServiceSpec{Pkg: strings.Join(target[:n-2], "."), Name: target[n-2], Methods: []MethodSpec{{Name: target[n-1]}}}
+	if annot && len(c.Sels) > 0 {
+		svc.Methods[0].Rule = httpRule("GET", fmt.Sprintf("/sel%d/{t}", c.ID%len(c.Sels)))
+	}
 	files, sds, err := BuildFiles([]ServiceSpec{svc})
 	if err != nil {
 		ev.Out, ev.Err = "schema", err.Error()
 		return
 	}
-	mux, err := larking.NewMux(larking.FilesOption(files), larking.ServiceConfigOption(cfg))
+	var mux *larking.Mux
+	switch mode {
+	case 0:
+		mux, err = larking.NewMux(larking.FilesOption(files), larking.ServiceConfigOption(cfg))
+	case 1:
+		mux, err = larking.NewMux(larking.ServiceConfigOption(cfg), larking.FilesOption(files))
+	default:
+		mux, err = larking.NewMux(larking.ServiceConfigOption(cfg)) // the descriptors come from the backend
+	}
 	if err != nil {
 		ev.Out, ev.Err = "schema", err.Error()
 		return
@@ -111,6 +133,7 @@ func runSelCase(c SelCase, target []string) (ev SelEv) {
 	rm := &rmux{mux: mux}
 	un := func(ctx context.Context, full string, req *dynamicpb.Message) (proto.Message, error) {
 		o := &ROut{K: "dispatch", M: full, Caps: []Cap{}}
+		leaves(req, nil, &o.Caps)
 		rm.mu.Lock()
 		rm.last = o
 		rm.mu.Unlock()
@@ -118,14 +141,37 @@ func runSelCase(c SelCase, target []string) (ev SelEv) {
 		rep.Set(repDesc().Fields().ByName("id"), protoreflect.ValueOfString(full))
 		return rep, nil
 	}
-	if err := larking.VerifRegisterService(mux, MakeServiceDesc(sds[0], un, nil), struct{}{}); err != nil {
+	if mode == 2 {
+		lis := bufconn.Listen(1 << 16)
+		gs := grpc.NewServer()
+		gs.RegisterService(MakeServiceDesc(sds[0], un, nil), struct{}{})
+		rpbRegister(gs, files)
+		go gs.Serve(lis)
+		defer gs.Stop()
+		cc, err := grpc.NewClient("passthrough:///sel", grpc.WithContextDialer(func(ctx context.Context, _ string) (net.Conn, error) { return lis.DialContext(ctx) }),
+			grpc.WithTransportCredentials(insecure.NewCredentials()))
+		if err != nil {
+			ev.Out, ev.Err = "schema", err.Error()
+			return
+		}
+		defer cc.Close()
+		ctx, cancel := context.WithTimeout(context.Background(), 10*time.Second)
+		err = mux.RegisterConn(ctx, cc)
+		cancel()
+		if err != nil {
+			ev.Out, ev.Err = "regerror", err.Error()
+			return
+		}
+	} else if err := larking.VerifRegisterService(mux, MakeServiceDesc(sds[0], un, nil), struct{}{}); err != nil {
 		ev.Out, ev.Err = "regerror", err.Error()
 		return
 	}
 	full := "/" + svc.FullName() + "/" + target[n-1]
 	for k := range c.Sels {
 		o := rm.lookup("GET", fmt.Sprintf("/sel%d/x", k))
-		ev.Bound[k] = o.K == "dispatch" && o.M == full && o.Status == 200
+		// bound: the request reaches the method with the variable mapped as the configured rule says (field s; the
+		// annotation on the same template would fill field t)
+		ev.Bound[k] = o.K == "dispatch" && o.M == full && o.Status == 200 && len(o.Caps) == 1 && strings.Join(o.Caps[0].Fp, ".") == "s"
 	}
 	return
 }
@@ -303,7 +349,9 @@ func selectorMain(args []string) error {
 		if err := json.Unmarshal(b, &sc); err != nil {
 			return err
 		}
-		sc.ID = len(cases) + 1
+		if sc.ID == 0 { // (a replayed case brings its id: the variants are drawn from it)
+			sc.ID = len(cases) + 1
+		}
 		cases = append(cases, sc)
 		return nil
 	})
@@ -317,8 +365,8 @@ func selectorMain(args []string) error {
 		go func() {
 			defer wg.Done()
 			for sc := range work {
-				for _, t := range selTargets {
-					ev := runSelCase(sc, t)
+				for ti, t := range selTargets {
+					ev := runSelCaseV(sc, t, (sc.ID*5+ti)%6)
 					if ev.Out != "schema" {
 						tw.Emit(ev)
 					}
@@ -336,4 +384,9 @@ func selectorMain(args []string) error {
 	}
 	fmt.Printf("selector: cases=%d events=%d\n", len(cases), tw.n)
 	return tw.Close()
+}
+
+// rpbRegister exposes the server's services through reflection, resolving descriptors in files (then globally).
+func rpbRegister(gs *grpc.Server, files *protoregistry.Files) {
+	rpb.RegisterServerReflectionServer(gs, reflection.NewServer(reflection.ServerOptions{Services: gs, DescriptorResolver: fallbackResolver{files}}))
 }
